@@ -22,7 +22,7 @@ SHAPES = ("f(a, b=2)", "f(*args, **kwargs)", "f(a, /, b, *, c=3)")
 class C18(Prop):
     id = "C18"
     level = "exploration"
-    tiers = {"quick": [("plain", 12000)], "thorough": [("plain", 300000)]}
+    tiers = {"quick": [("plain", 72000)], "thorough": [("plain", 1440000)]}
     rule_text = (
         "one case = wrapper kind (asynchronous bare / called / with explicit executor / with explicit loop, on functions and "
         "methods; wrap_async of sync and async functions; traced sync/async) x signature shape (positional, keyword, defaults, "
